@@ -82,14 +82,6 @@ def renderObjs : Except Err (List Obj) → String
   | .ok os => s!"ok {renderList (os.map renderObj)}"
   | .error e => renderErr (some e)
 
-/-- `a` is a proper prefix of `b` and the next character of `b` is '/' or sorts below it. -/
-def lowSepPair (a b : Str) : Bool :=
-  a.isPrefixOf b && (match b.drop a.length with | ch :: _ => decide (ch < '/') || ch == '/' | [] => false)
-
-/-- Deviation `index-order-separator`: a non-unique index whose stored values contain such a pair. -/
-def lowSepDev (i : Index) (m : Abs) : Bool :=
-  !i.unique && m.any (fun a => m.any (fun b => lowSepPair (i.sel.get a) (i.sel.get b)))
-
 structure St where
   cfg : Cfg := { pfx := ['p'], indexes := [⟨['i', 'd'], true, .id⟩, ⟨['g', 'r', 'p'], false, .grp⟩] }
   kv : KV := []
